@@ -1687,3 +1687,61 @@ def r04_8(ctx):
 
 _r048_seen = {}
 _g8_seen = {}
+
+
+def _error_skipping_adaptors(crate):
+    """[(body, bb, term, what)]: iterator adaptors that drop the Err items of an iterator of Results and go on:
+    `filter_map(Result::ok)`, `flat_map(Result::ok)`, `flatten()` over Results, `filter(Result::is_ok)`,
+    `filter_map(|r| r.ok())`."""
+    out = []
+    for b in crate.bodies:
+        for bb, t in b.calls():
+            f = fn_of(t) or {}
+            if f.get("trait") != "std::iter::Iterator" and "iter::Iterator" not in f.get("def", ""):
+                continue
+            name = f.get("name")
+            targs = " ".join(str(a) for a in (f.get("args") or []))
+            if name in ("filter_map", "flat_map", "filter", "map_while") and len(t["args"]) == 2:
+                a = t["args"][1]
+                fn_def = a.get("def") if a.get("k") in ("fn", "const") else None
+                if fn_def is None and "fn(" not in targs and "{closure" not in targs:
+                    tr = trace(b, a)
+                    if tr.origin and tr.origin[0] == "const":
+                        fn_def = tr.origin[1].get("def")
+                if name in ("filter_map", "flat_map") and (fn_def == "std::result::Result::<T, E>::ok" or "Result::<T, E>::ok" in targs or "Result<" in targs and "::ok}" in targs):
+                    out.append((b, bb, t, f"{name}(Result::ok)"))
+                    continue
+                if name == "filter" and (fn_def == "std::result::Result::<T, E>::is_ok" or "Result::<T, E>::is_ok" in targs):
+                    out.append((b, bb, t, "filter(Result::is_ok)"))
+                    continue
+                # a closure that does nothing but `.ok()` on its argument
+                for cid in f.get("closures", []):
+                    cb = crate.by_id.get(cid)
+                    if cb is None or name not in ("filter_map", "flat_map"):
+                        continue
+                    rt = trace(cb, {"k": "copy", "p": {"l": 0, "pr": []}})
+                    if rt.origin and rt.origin[0] == "call" and (fn_of(rt.origin[2]) or {}).get("def") == "std::result::Result::<T, E>::ok" and all(s_[0] == "use" for s_ in rt.steps):
+                        at = trace(cb, rt.origin[2]["args"][0])
+                        if at.origin and at.origin[0] == "arg" and at.origin[1] == 2 and all(s_[0] in ("use", "deref", "field") for s_ in at.steps):
+                            out.append((b, bb, t, f"{name}(|r| r.ok())"))
+            elif name == "flatten" and t["args"]:
+                st = str(f.get("self_ty") or "") + " " + targs
+                # Item = Result<..>: visible in the adaptor's type arguments
+                ity = b.local_ty(t["dest"]["l"]) if t.get("dest") else ""
+                if "Result<" in st or re.search(r"Flatten<.*Result<", ity or ""):
+                    out.append((b, bb, t, "flatten() over Results"))
+    return out
+
+
+@rule("R04.9", 1, "no error is filtered out of a fallible iterator: `filter_map(Result::ok)`, `flat_map(Result::ok)`, `flatten()` over Results and `filter(Result::is_ok)` keep asking a source that may answer `Err` for ever (libyaml after a parser error, a reader in a failed state) and never end", ["C04", "C12"])
+def r04_9(ctx):
+    n = 0
+    for crate in (ctx.lib, ctx.bin):
+        for b, bb, t, what in _error_skipping_adaptors(crate):
+            n += 1
+            ctx.ob(f"errors-skipped:{crate.kind}:{b.name}:{what}", False, site(b, bb), f"`{what}` drops the errors of a fallible iterator and goes on with the next item: when the source keeps failing (a parser that has stopped, a broken reader) the loop spins for ever, and the failure is never reported; `map_while(Result::ok)` or `?` ends at the first error")
+    ctx.ob("error-skipping-adaptors", n == 0, "lib+bin", f"{n} error-skipping iterator adaptor(s) in xt")
+    ctl = ctx.facts.controls
+    found = {w for _, _, _, w in _error_skipping_adaptors(ctl)} if ctl is not None else set()
+    for want in ("filter_map(Result::ok)", "flatten() over Results"):
+        ctx.ob(f"control:error-skip:{want}", want in found, "tables/controls/src/lib.rs", "matcher fires on the positive control" if want in found else "matcher does not see its own positive control (the rule would be vacuous)", trivial=True)
